@@ -60,6 +60,7 @@ type mpExec struct {
 	held      []string        // model: accepted, not committed, not flushed, in acceptance order
 	committed map[string]bool // model
 	resub     map[string]bool
+	flushed   map[string]bool // committed txs whose dedup-cache entry a later Flush has removed
 }
 
 func mpTx(k int) []byte { return []byte(fmt.Sprintf("c19-opaque-tx-%d", k)) }
@@ -120,6 +121,11 @@ func (x *mpExec) reap(n int) ([]string, [][]byte, bool) {
 			shape := "not-removed-by-commit"
 			if x.resub[nm] {
 				shape = "resubmitted-after-commit"
+				if x.flushed[nm] {
+					// Flush "removes all transactions from mempool and cache": the record that the
+					// tx was committed is gone with the cache
+					shape = "resubmitted-after-commit-and-flush"
+				}
 			}
 			x.find("Mempool.Reap", "committed-tx-offered-again", "opaque/"+shape, fmt.Sprintf("%s was in a committed block and is offered by Reap(%d)", nm, n))
 			continue
@@ -245,6 +251,11 @@ func (x *mpExec) apply(letter string) string {
 			return "dead"
 		}
 		x.held = nil
+		for k, v := range x.committed {
+			if v {
+				x.flushed[k] = true
+			}
+		}
 		// "Remove all transactions from mempool and cache": checked at once
 		var sz int
 		var left []gtypes.Tx
@@ -294,9 +305,16 @@ func (x *mpExec) canon() string {
 			rs = append(rs, k)
 		}
 	}
+	var fl []string
+	for k, v := range x.flushed {
+		if v {
+			fl = append(fl, k)
+		}
+	}
 	sort.Strings(cm)
 	sort.Strings(rs)
-	return fmt.Sprintf("L%v C%v | model held%v committed%v resub%v", names, ck, x.held, cm, rs)
+	sort.Strings(fl)
+	return fmt.Sprintf("L%v C%v | model held%v committed%v resub%v flushed%v", names, ck, x.held, cm, rs, fl)
 }
 
 // mpWorker keeps one Mempool per worker goroutine.  NewMempool and Flush each
@@ -336,7 +354,7 @@ func (w *mpWorker) get(cfg mpCfg, x *mpExec) bool {
 
 func runMp(w *mpWorker, cfg mpCfg, hist []string, mode string) *execResult {
 	res := &execResult{}
-	x := &mpExec{cfg: cfg, res: res, committed: map[string]bool{}, resub: map[string]bool{}}
+	x := &mpExec{cfg: cfg, res: res, committed: map[string]bool{}, resub: map[string]bool{}, flushed: map[string]bool{}}
 	if !w.get(cfg, x) {
 		return res
 	}
